@@ -1068,6 +1068,13 @@ class TunnelCommunity(Community):
             e2e_data = circuit.ctype in [CIRCUIT_TYPE_RP_DOWNLOADER, CIRCUIT_TYPE_RP_SEEDER]
             if DataChecker.could_be_ipv8(data) and not e2e_data:
                 if self._prefix == data[:22]:
+                    if data[22] in (CreatePayload.msg_id, CreatedPayload.msg_id, ExtendPayload.msg_id,
+                                    ExtendedPayload.msg_id, PingPayload.msg_id, PongPayload.msg_id):
+                        # These messages manage the circuit they name and are only valid as cells of that circuit,
+                        # (un)wrapped with its keys: whoever sent this to our exit has shown no such keys.
+                        self.logger.warning("Dropping circuit message %d that arrived as data of circuit %d",
+                                            data[22], circuit_id)
+                        return
                     self.logger.debug("Incoming packet meant for us")
                     self.on_packet_from_circuit(origin, data, circuit_id)
                     return
